@@ -252,6 +252,8 @@ pub struct TreeMachine {
     sparse_checks: bool,
     mutations: u64,
     damage_kind: Option<String>,
+    /// raw-state operations applied since the last `toraw` (a `note` without one marks nothing)
+    raw_applied: usize,
     pub events: BTreeMap<String, u64>,
 }
 
@@ -334,6 +336,7 @@ impl TreeMachine {
             sparse_checks: false,
             mutations: 0,
             damage_kind: None,
+            raw_applied: 0,
             events: BTreeMap::new(),
         }
     }
@@ -490,6 +493,7 @@ impl TreeMachine {
                 }
                 self.reference.clear();
                 self.damaged = false;
+                self.raw_applied = 0;
                 let r = if ws[0] == "new" { Map::new(c) } else { Map::empty(c) };
                 match r {
                     Ok(m) => {
@@ -520,6 +524,7 @@ impl TreeMachine {
                 self.map = None;
                 self.reference.clear();
                 self.damaged = false;
+                self.raw_applied = 0;
                 let m: Map = Default::default();
                 let ok2 = Map::with_default_capacity().is_ok();
                 if !ok2 {
@@ -621,6 +626,7 @@ impl TreeMachine {
                 self.map.as_mut().unwrap().clear();
                 self.reference.clear();
                 self.damaged = false;
+                self.raw_applied = 0;
                 self.max_live_leaves = 1;
                 self.max_live_branches = 0;
                 self.post_mutation(None);
@@ -1035,9 +1041,13 @@ impl TreeMachine {
                 let Some((ko, _)) = pk(k) else { return "bad-op".into() };
                 let key = Key::new(ko, 0);
                 let before_items = if self.damaged { Some(dump(&snapshot(self.map.as_ref().unwrap()))) } else { None };
+                let rejected_before = self.damaged && ws[0] == "tryremove" && self.map.as_ref().unwrap().check_invariants_detailed().is_err();
                 let m = self.map.as_mut().unwrap();
                 let r = if ws[0] == "removeitem" { m.remove_item(&key) } else { m.try_remove(&key) }.map(|v| v.v);
                 drop(key);
+                if rejected_before && !matches!(r, Err(BPlusTreeError::DataIntegrityError(_))) {
+                    self.fail("C14", format!("try_remove({}) on a map the validators reject did not refuse with a data-integrity error", ko));
+                }
                 let out = match &r {
                     Ok(v) => format!("ok {}", v),
                     Err(e) => format!("err {}", err_kind(e)),
@@ -1063,7 +1073,11 @@ impl TreeMachine {
             ["tryinsert", k, v] => {
                 let (Some((ko, ks)), Ok(v)) = (pk(k), v.parse::<u64>()) else { return "bad-op".into() };
                 let before_items = if self.damaged { Some(dump(&snapshot(self.map.as_ref().unwrap()))) } else { None };
+                let rejected_before = self.damaged && self.map.as_ref().unwrap().check_invariants_detailed().is_err();
                 let r = self.map.as_mut().unwrap().try_insert(Key::new(ko, ks), Val::new(v)).map(|o| o.map(|x| x.v));
+                if rejected_before && !matches!(r, Err(BPlusTreeError::DataIntegrityError(_))) {
+                    self.fail("C14", format!("try_insert({}) on a map the validators reject did not refuse with a data-integrity error", ko));
+                }
                 let out = match &r {
                     Ok(o) => format!("ok {}", fmt_opt(*o)),
                     Err(e) => format!("err {}", err_kind(e)),
@@ -1223,7 +1237,12 @@ impl TreeMachine {
             return "bad-op".into();
         }
         match catch_unwind(AssertUnwindSafe(|| self.exec_x_inner(ws))) {
-            Ok(s) => s,
+            Ok(s) => {
+                if !matches!(ws.first().copied(), Some("toraw") | Some("note")) && s != "bad-op" && s != "false" {
+                    self.raw_applied += 1;
+                }
+                s
+            }
             Err(p) => {
                 self.dead = true;
                 let msg = p.downcast_ref::<String>().cloned().or_else(|| p.downcast_ref::<&str>().map(|s| s.to_string())).unwrap_or_default();
@@ -1244,10 +1263,13 @@ impl TreeMachine {
             ["toraw"] => {
                 self.damaged = true;
                 self.damage_kind = None;
+                self.raw_applied = 0;
                 "ok".into()
             }
             ["note", kind, ..] => {
-                self.damage_kind = Some(kind.to_string());
+                if self.raw_applied > 0 {
+                    self.damage_kind = Some(kind.to_string());
+                }
                 "ok".into()
             }
             ["leaf-keys", id, ks] => {
